@@ -277,23 +277,22 @@ Proof.
     simpl. split; [reflexivity|split; assumption].
   - (* ONewC *)
     rewrite Hd. destruct (lookup c tbl) as [g|] eqn:Hc; simpl; [|split; [reflexivity|split; assumption]].
-    destruct (g_ctor g) as [[p d]|] eqn:Hct.
-    + destruct (build_map (g_params g) args []) as [m|] eqn:Hb.
-      * assert (Hlen : (List.length args <? List.length (g_params g))%nat = false).
-        { apply Nat.ltb_ge. destruct (Nat.le_gt_cases (List.length (g_params g)) (List.length args)); [assumption|].
-          apply (proj2 (build_map_none _ _ [])) in H. congruence. }
-        rewrite Hlen.
-        assert (Hv : v <> VNull) by (intros ->; discriminate).
-        pose proof (new_inst_irel tbl c g args m [(p, v)] W Hc Hb) as Hir.
-        pose proof (param_agrees tbl _ g d v Hir Hc Hv) as Hpa. simpl in Hpa.
-        unfold ctor_promoted_accepts. rewrite Hpa.
-        destruct (match member_type g args d with None => true | Some t => of_type sub v t end).
-        -- simpl. split; [reflexivity|]. split; [reflexivity|]. simpl.
-           apply Forall2_app; [assumption|]. constructor; [|constructor].
-           unfold rel; simpl. repeat split; auto.
-        -- simpl. split; [reflexivity|split; assumption].
-      * apply build_map_none in Hb. apply Nat.ltb_lt in Hb. rewrite Hb. simpl. split; [reflexivity|split; assumption].
-    + destruct (build_map (g_params g) args []); simpl; split; try reflexivity; split; assumption.
+    destruct (build_map (g_params g) args []) as [m|] eqn:Hb.
+    + assert (Hlen : (List.length args <? List.length (g_params g))%nat = false).
+      { apply Nat.ltb_ge. destruct (Nat.le_gt_cases (List.length (g_params g)) (List.length args)); [assumption|].
+        apply (proj2 (build_map_none _ _ [])) in H. congruence. }
+      rewrite Hlen.
+      destruct (g_ctor g) as [[p d]|] eqn:Hct; [|simpl; split; [reflexivity|split; assumption]].
+      assert (Hv : v <> VNull) by (intros ->; discriminate).
+      pose proof (new_inst_irel tbl c g args m [(p, v)] W Hc Hb) as Hir.
+      pose proof (param_agrees tbl _ g d v Hir Hc Hv) as Hpa. simpl in Hpa.
+      unfold ctor_promoted_accepts. rewrite Hpa.
+      destruct (match member_type g args d with None => true | Some t => of_type sub v t end).
+      * simpl. split; [reflexivity|]. split; [reflexivity|]. simpl.
+        apply Forall2_app; [assumption|]. constructor; [|constructor].
+        unfold rel; simpl. repeat split; auto.
+      * simpl. split; [reflexivity|split; assumption].
+    + apply build_map_none in Hb. apply Nat.ltb_lt in Hb. rewrite Hb. simpl. split; [reflexivity|split; assumption].
   - (* ONewRaw *)
     rewrite Hd. destruct (lookup c tbl) as [g|] eqn:Hc; simpl; [|split; [reflexivity|split; assumption]].
     split; [reflexivity|]. split; [reflexivity|]. simpl.
@@ -393,18 +392,16 @@ Proof.
   intros W Hv. pose proof (decl_unchanged_l ops (init tbl)) as Hd. simpl in Hd.
   set (st := fst (run sub get_property (init tbl) ops)) in *. simpl. rewrite Hd.
   destruct (lookup c tbl) as [g|] eqn:Hc; simpl; [|reflexivity].
-  destruct (g_ctor g) as [[p d]|] eqn:Hct.
-  - destruct (build_map (g_params g) args []) as [m|] eqn:Hb.
-    + assert (Hlen : (List.length args <? List.length (g_params g))%nat = false).
-      { apply Nat.ltb_ge. destruct (Nat.le_gt_cases (List.length (g_params g)) (List.length args)); [assumption|].
-        apply (proj2 (build_map_none _ _ [])) in H. congruence. }
-      rewrite Hlen.
-      pose proof (new_inst_irel tbl c g args m [(p, v)] W Hc Hb) as Hir.
-      pose proof (param_agrees tbl _ g d v Hir Hc Hv) as Hpa. simpl in Hpa.
-      unfold ctor_promoted_accepts. rewrite Hpa.
-      destruct (match member_type g args d with None => true | Some t => of_type sub v t end); reflexivity.
-    + apply build_map_none in Hb. apply Nat.ltb_lt in Hb. rewrite Hb. reflexivity.
-  - destruct (build_map (g_params g) args []); reflexivity.
+  destruct (build_map (g_params g) args []) as [m|] eqn:Hb.
+  - assert (Hlen : (List.length args <? List.length (g_params g))%nat = false).
+    { apply Nat.ltb_ge. destruct (Nat.le_gt_cases (List.length (g_params g)) (List.length args)); [assumption|].
+      apply (proj2 (build_map_none _ _ [])) in H. congruence. }
+    rewrite Hlen. destruct (g_ctor g) as [[p d]|] eqn:Hct; [|reflexivity].
+    pose proof (new_inst_irel tbl c g args m [(p, v)] W Hc Hb) as Hir.
+    pose proof (param_agrees tbl _ g d v Hir Hc Hv) as Hpa. simpl in Hpa.
+    unfold ctor_promoted_accepts. rewrite Hpa.
+    destruct (match member_type g args d with None => true | Some t => of_type sub v t end); reflexivity.
+  - apply build_map_none in Hb. apply Nat.ltb_lt in Hb. rewrite Hb. reflexivity.
 Qed.
 
 (* ---- frame: no operation changes what an existing instance accepts (any state) *)
